@@ -29,7 +29,10 @@ impl Tier {
     }
 }
 
-pub const VERIF_ROOT: &str = "/verif";
+/// output root (evidence/, replays/, known_findings.json); overridable for scratch copies
+pub fn verif_root() -> String {
+    std::env::var("VERIF_ROOT").unwrap_or_else(|_| "/verif".to_string())
+}
 
 #[derive(Clone, Debug)]
 pub struct Violation {
@@ -187,14 +190,14 @@ impl Ctx {
         let viols = self.violations.lock().unwrap().clone();
         let mut unlisted = 0;
         let mut listed = 0;
-        let _ = std::fs::create_dir_all(format!("{VERIF_ROOT}/replays/{}", self.id));
+        let _ = std::fs::create_dir_all(format!("{}/replays/{}", verif_root(), self.id));
         for v in &viols {
             let k = known.iter().find(|k| k.status == "open" && v.fingerprint.starts_with(&k.fingerprint));
             if let Some(k) = k {
                 println!("KNOWN-FINDING: property={} {} [{}]", self.id, k.what, v.fingerprint);
                 listed += 1;
             } else {
-                let path = format!("{VERIF_ROOT}/replays/{}/{:016x}.json", self.id, fnv(&v.fingerprint));
+                let path = format!("{}/replays/{}/{:016x}.json", verif_root(), self.id, fnv(&v.fingerprint));
                 let doc = json!({"property": self.id, "fingerprint": v.fingerprint, "what": v.what, "case": v.replay});
                 let _ = std::fs::write(&path, serde_json::to_string_pretty(&doc).unwrap());
                 println!("VIOLATION property={} replay={}", self.id, path);
@@ -241,8 +244,8 @@ impl Ctx {
             "known_findings_reported": listed,
             "panics": self.panics.lock().unwrap().clone(),
         });
-        let _ = std::fs::create_dir_all(format!("{VERIF_ROOT}/evidence"));
-        std::fs::write(format!("{VERIF_ROOT}/evidence/{}.json", self.id), serde_json::to_string_pretty(&ev).unwrap()).expect("write evidence");
+        let _ = std::fs::create_dir_all(format!("{}/evidence", verif_root()));
+        std::fs::write(format!("{}/evidence/{}.json", verif_root(), self.id), serde_json::to_string_pretty(&ev).unwrap()).expect("write evidence");
         println!(
             "{} {}: evaluations={} distinct={} nontrivial={} transitions={} outcomes={} violations={} known={} wall={:.1}s",
             self.id,
@@ -318,7 +321,7 @@ pub struct Known {
 }
 
 pub fn load_known(id: &str) -> Vec<Known> {
-    let path = format!("{VERIF_ROOT}/known_findings.json");
+    let path = format!("{}/known_findings.json", verif_root());
     let Ok(txt) = std::fs::read_to_string(&path) else { return vec![] };
     let Ok(j) = serde_json::from_str::<J>(&txt) else {
         eprintln!("MACHINERY ERROR: known_findings.json does not parse");
